@@ -66,6 +66,7 @@ class CrashAt:
         self.exc = exc
         self.at = at
         self.seen = {}
+        self.stack = []
 
     def __call__(self, code, lineno):
         self.n += 1
@@ -75,4 +76,10 @@ class CrashAt:
         if hit:
             self.fired = loc
             self.occurrence = occ
+            fr, names = sys._getframe(2), []
+            while fr is not None and len(names) < 40:
+                if fr.f_code.co_filename.startswith(_state["root"]):
+                    names.append(fr.f_code.co_name)
+                fr = fr.f_back
+            self.stack = names           # ovld functions active when the fault arrives (innermost first)
             raise self.exc(loc)
